@@ -22,6 +22,3 @@ pub assume_specification<T, A: core::alloc::Allocator>[VecDeque::<T, A>::get](v:
 pub fn count_while_less(v: &VecDeque<usize>, len: usize) -> (r: usize)
     ensures r <= v@.len(), forall|i: int| 0 <= i < r ==> v@[i] < len, r < v@.len() ==> v@[r as int] >= len,
 { unimplemented!() }
-// core::bool::then_some
-pub assume_specification<T>[bool::then_some](b: bool, t: T) -> (r: Option<T>)
-    ensures r == (if b { Some(t) } else { None::<T> });
